@@ -94,7 +94,7 @@ type Stats struct {
 	PerBound       []int          `json:"per_bound"`       // executions with exactly b deviations
 	Exhaustive     bool           `json:"exhaustive"`      // the whole tree was finished (no alternative pruned by the bound)
 	TimedOut       bool           `json:"timed_out"`
-	BonusCut       bool           `json:"bonus_cut"`       // a level beyond the requested bound was started and cut short by the bonus deadline
+	BonusCut       bool           `json:"bonus_cut"` // a level beyond the requested bound was started and cut short by the bonus deadline
 	EngineErrors   []string       `json:"engine_errors"`
 	MaxPoints      int            `json:"max_points"`
 	MaxThreads     int            `json:"max_threads"`
